@@ -177,7 +177,8 @@ def gen_cases(tier: str, seed: int) -> List[Dict]:
                 # configuration's display flags, on monomials that graded and ungraded orders rank differently
                 opp = [c for c in pool if "-mixeddeg" in c.get("id", "") and (c.get("options") or {}).get("sort_graded") != cfg["display_graded"]
                        and (c.get("options") or {}).get("sort_reverse") != cfg["display_reverse"]]
-                always = rng.sample(opp, min(1, len(opp)))
+                lits = [c for c in opp if c["id"].endswith("-lit")]
+                always = rng.sample(lits, min(1, len(lits))) + rng.sample(opp, min(1, len(opp)))
             for c in always + rng.sample(pool, min(per, len(pool))):
                 c = dict(c)
                 opt = dict(cfg)
